@@ -73,6 +73,16 @@ Expect do_form(int form, DV& dv, SV& sv, MView const& dm) {
 
 static long g_pairs = 0, g_runs = 0, g_nontrivial = 0, g_capped_groups = 0;
 
+// C09 clause "assignment through views does not allocate": count heap allocations during a form (ASan builds: sanitizer malloc hook)
+static long g_mallocs = 0; static bool g_count_mallocs = false; static bool g_report_alloc = false;
+#if defined(__SANITIZE_ADDRESS__)
+extern "C" int __sanitizer_install_malloc_and_free_hooks(void (*malloc_hook)(const volatile void*, std::size_t), void (*free_hook)(const volatile void*));
+static void on_malloc(const volatile void*, std::size_t) { if(g_count_mallocs) { ++g_mallocs; } }
+static void on_free(const volatile void*) {}
+static bool const g_hooks_installed = (__sanitizer_install_malloc_and_free_hooks(on_malloc, on_free), true);
+#endif
+static bool form_must_not_allocate(int form);
+
 template<int D>
 void run_pairs(std::vector<idx> const& sizes, Config const& cfg, long cap_per_group, std::set<std::string> const& skip) {
 	idx N = 1; for(auto s : sizes) { N *= s; }
@@ -125,7 +135,9 @@ void run_pairs(std::vector<idx> const& sizes, Config const& cfg, long cap_per_gr
 							using DV = std::decay_t<decltype(dv)>; using SV = std::decay_t<decltype(sv)>;
 							if constexpr(rank_of<DV> == rank_of<SV> && !is_ro_v<DV>) {
 								auto base_before = dv.base(); auto lay_before = dv.layout();
+								g_mallocs = 0; g_count_mallocs = true;
 								ex = do_form(form, dv, sv, d.m); ran = true;
+								g_count_mallocs = false;
 								if(dv.base() != base_before || !(dv.layout() == lay_before)) { post = "destination view was rebound or resized"; }
 							}
 						});
@@ -147,6 +159,7 @@ void run_pairs(std::vector<idx> const& sizes, Config const& cfg, long cap_per_gr
 					} else if(!std::equal(e2.begin(), e2.end(), g2.data())) { why = "source-modified"; }
 					else if(!g1.intact() || !g2.intact()) { why = "guard-overwritten"; }
 					else if(!post.empty()) { why = "rebound"; }
+					if(g_report_alloc) { why = (form_must_not_allocate(form) && g_mallocs != 0) ? "allocated" : ""; }
 					if(!why.empty()) {
 						mc::R.violation("D" + std::to_string(d.m.rank()) + "|" + fname[form] + "|" + why,
 							mc::J().s("harness", "assignmc").s("replay", tr).s("root", rootname).s("dst_trace", hist_str(d.h)).s("src_trace", hist_str(s.h)).s("form", fname[form]).s("oracle", why)
@@ -166,6 +179,8 @@ void run_pairs(std::vector<idx> const& sizes, Config const& cfg, long cap_per_gr
 #endif
 	mc::R.note(rootname + ": view states=" + std::to_string(saved.size()) + " extents classes=" + std::to_string(groups.size()) + " depth=" + std::to_string(cfg.maxdepth));
 }
+
+static bool form_must_not_allocate(int form) { return form == F_ASSIGN || form == F_ASSIGN_MOVED || form == F_ELEMENTS || form == F_ELEMENTS_MOVED || form == F_FILL || form == F_SWAP_MEMBER || form == F_SWAP_ADL || form == F_ASSIGN_RVALUE_DST || form == F_ELEMENT_MOVED; }
 
 template<int D>
 int replay_pair(std::vector<idx> const& sizes, Hist const& dh, Hist const& sh, int form) {
@@ -205,6 +220,7 @@ int main(int argc, char** argv) {
 	cfg.maxdepth = static_cast<int>(args.geti("depth", 2));
 	cfg.menu0.call_full = false; cfg.menu0.call_maxargs = 2; cfg.menu.call_full = false; cfg.menu.call_maxargs = 1;
 	long cap = args.geti("cap", thorough ? 0 : 4000);
+	g_report_alloc = args.get("prop", "") == "C09";   // C09 mode: report only the no-allocation clause
 	long shard = args.geti("shard", 0), nshards = args.geti("nshards", 1);
 	mc::set_deadline(static_cast<double>(args.geti("deadline", 3000)));
 	if(args.has("replay")) {
